@@ -77,6 +77,9 @@ def num_variants(rng, n):
 
 WILD = [("plus", ("d",)), ("plus", ("c09",)), ("star", ("any",))]
 WILD_AS = [("plus", ("d",)), ("plus", ("c09",)), ("star", ("d",)), ("star", ("c09",))]
+# near misses of the wildcard-AS shapes: the dot wildcards accept every text before the colon, not only digits (an IPv4
+# address or a dotted 4-octet AS of an extended community, say), so they must stay regular expressions
+WILD_AS_NEAR = WILD_AS + [("star", ("any",)), ("plus", ("any",)), ("star", ("any",)), ("plus", ("any",)), ("plus", ("cat", [("d",)])), ("opt", ("d",))]
 
 
 def small_tail(rng, L):
@@ -120,7 +123,7 @@ def gen_pattern(rng, vals):
         if rng.random() < 0.15:
             toks.append(toks[0])
         rhs = lit(toks[0]) if (n == 1 and rng.random() < 0.5) else ("grp", ("alt", [lit(t) for t in toks]))
-        return ("p", True, rng.random() < 0.85, cat(rng.choice(WILD_AS), lit(":"), rhs))
+        return ("p", True, rng.random() < 0.85, cat(rng.choice(WILD_AS if rng.random() < 0.7 else WILD_AS_NEAR), lit(":"), rhs))
     if kind == "qcolon":
         q = rng.choice(["opt", "plus", "star"])
         return ("p", True, True, cat(lit(str(A)), (q, lit(":")), lit("%d:%d" % (L, M)) if rng.random() < 0.6 else lit(str(L))))
@@ -224,9 +227,11 @@ def gen_promoted_pattern(rng, vals):
         return ("p", True, True, lit("%d:%d" % (A, L)))
     if k == "wild":
         return ("p", True, True, cat(lit("%d:" % A), rng.choice(WILD)))
+    # (a quarter of the wildcard-AS shapes are near misses: a dot wildcard before the colon is NOT promotable)
+    was = WILD_AS if rng.random() < 0.75 else WILD_AS_NEAR
     if k == "wildas":
-        return ("p", True, True, cat(rng.choice(WILD_AS), lit(":"), lit(str(L))))
-    return ("p", True, True, cat(rng.choice(WILD_AS + [lit(str(A))]), lit(":"), ("grp", ("alt", [lit(str(L)), lit(str(rng.choice(vals["la"])) + "1")]))))
+        return ("p", True, True, cat(rng.choice(was), lit(":"), lit(str(L))))
+    return ("p", True, True, cat(rng.choice(was + [lit(str(A))]), lit(":"), ("grp", ("alt", [lit(str(L)), lit(str(rng.choice(vals["la"])) + "1")]))))
 
 
 def gen_ext_case(rng):
@@ -256,6 +261,14 @@ def gen_ext_case(rng):
             a = rng.choice([a, 167772161])
             la &= 0xffff
         ecs.append((kind, st, a, la, 1 if rng.random() < 0.9 else 0))
+    if rng.random() < 0.12:
+        # directed: a wildcard before the colon (digits only, or any text) over a finite set of local values, against
+        # communities of all three kinds carrying exactly those values
+        L, M = rng.choice(vals["la"]) & 0xffff, rng.choice(vals["la"]) & 0xffff
+        sub = rng.choice(["rt", "soo"])
+        rhs = lit(str(L)) if rng.random() < 0.5 else ("grp", ("alt", [lit(str(L)), lit(str(M))]))
+        pats = [(sub, ("p", True, True, cat(rng.choice(WILD_AS_NEAR), lit(":"), rhs)))]
+        ecs = [(k, EC_ST[sub], {0: 65001, 1: rng.choice([65536 + 7, 100]), 2: 167772161}[k], rng.choice([L, M, L, (L + 1) & 0xffff]), 1) for k in rng.sample([0, 1, 2, 1, 2], rng.choice([1, 2, 3]))]
     opt = rng.choice([0, 0, 1, 2])
     edits = []
     final = list(pats)
